@@ -289,12 +289,11 @@ def plan(tier, seed):
     for scn in (d0[:1] if tier == "quick" else d0):
         for p in range(8):
             specs.append({"mode": "enum2", "shape": "stale-readable", "scn": scn, "part": p, "parts": 8, "window": 40 if tier == "quick" else 80})
-    if tier != "quick":
-        # three chained pre-emptions around the worker's failing 100 Continue (DESIGN.md 9: has not shown
-        # anything yet; kept in the thorough tier only)
-        for scn in [d for d in directed() if d.get("arrival") == "body-after-response"]:
-            for p in range(2):
-                specs.append({"mode": "enum2", "shape": "lock-window-3", "scn": scn, "part": p, "parts": 2})
+    # three chained pre-emptions around the worker's failing 100 Continue
+    d4 = [d for d in directed() if d.get("arrival") == "body-after-response"]
+    for scn in (d4[:1] if tier == "quick" else d4):
+        for p in range(4):
+            specs.append({"mode": "enum2", "shape": "lock-window-3", "scn": scn, "part": p, "parts": 4})
     d3 = [d for d in directed() if d.get("small_reads")]
     if tier == "quick":
         d3 = d3[:2]
@@ -541,7 +540,7 @@ def run_shard(spec):
             stages = [
                 {"site": tup(("service", "finish", "close", "execute")), "from": "worker", "to": "actor", "limit": 6, "stride": 7},
                 {"site": tup(("send_continue",)), "from": "worker", "to": "io", "limit": 8},
-                {"site": tup(("add_task", "received")), "from": "io", "to": "worker", "limit": 25},
+                {"site": lambda site: True, "from": "io", "to": "worker", "limit": 60},
             ]
             gen = runner.chained_preemptions(scn, stages, setup=fault_step_setup, prefer_role="worker")
         elif spec.get("shape") == "body-into-lock-window":
